@@ -244,12 +244,15 @@ func (b *BlockWise[C]) Do(r *pool.Message, maxSzx SZX, maxMessageSize uint32, do
 		return nil, fmt.Errorf("cannot set payload size: %w", err)
 	}
 	req.SetOptionUint32(message.Size1, payloadSizeUint32)
-	block, err := EncodeBlockOption(maxSzx, 0, true)
+	newBufLen := bufferSize(maxSzx, maxMessageSize)
+	// with BERT the first block may already hold the whole body (more than 1024 bytes, but not
+	// more than the BERT buffer): then no block follows and M must not be set
+	more := payloadSize > newBufLen
+	block, err := EncodeBlockOption(maxSzx, 0, more)
 	if err != nil {
-		return nil, fmt.Errorf("cannot encode block option(%v, %v, %v) to bw request: %w", maxSzx, 0, true, err)
+		return nil, fmt.Errorf("cannot encode block option(%v, %v, %v) to bw request: %w", maxSzx, 0, more, err)
 	}
 	req.SetOptionUint32(message.Block1, block)
-	newBufLen := bufferSize(maxSzx, maxMessageSize)
 	buf := make([]byte, newBufLen)
 	newOff, err := r.Body().Seek(0, io.SeekStart)
 	if err != nil {
